@@ -8,7 +8,7 @@ from __future__ import annotations
 
 import random
 
-from .. import doccheck, editgen, engine_oracles, engine_run, gen, ooxml, sem
+from .. import canon_session, doccheck, editgen, engine_oracles, engine_run, gen, ooxml, sem
 
 PROFILE = {"vmerge": 0.0, "point_comment": 0.0}
 PROFILES = {"default": PROFILE,
@@ -33,8 +33,12 @@ def work(case):
     if edits is None:
         edits = editgen.gen_mixed_batch(rng, case["doc"], texts, rng.randint(1, 4), comment_p=0.35)
     r = engine_run.run_edits(data, edits)
+    # the same found edits addressed by offset (the path the Lean model Adeu.Doc.applyEditsIndexed covers)
+    ix = [dict(e, index=texts["raw"].find(e["target"])) for e in edits if e.get("locatable") and e.get("in_raw")]
+    rix = engine_run.run_edits(data, ix) if ix else None
     case = dict(case, edits=edits)
     return {"case": case, "res": {k: v for k, v in r.items() if k != "out_bytes"},
+            "indexed": {"edits": ix, "res": {k: v for k, v in rix.items() if k != "out_bytes"}} if rix else None,
             "sample": {"edits": [(e["target"], e["new"], e["kind"], e.get("comment")) for e in edits]}}
 
 
@@ -42,7 +46,38 @@ def oracle(res):
     r = res["res"]
     if r["err"]:
         return [f"apply_edits / save raised {r['err']}"]
-    return engine_oracles.oracle_reversible(res["case"]["doc"], r["out_doc"])
+    fails = engine_oracles.oracle_reversible(res["case"]["doc"], r["out_doc"])
+    ix = res.get("indexed")
+    if ix:
+        if ix["res"]["err"]:
+            fails.append(f"indexed batch raised {ix['res']['err']}")
+        else:
+            fails.extend("indexed batch: " + f for f in engine_oracles.oracle_reversible(res["case"]["doc"], ix["res"]["out_doc"]))
+    return fails
+
+
+def driver_line(res):
+    ix = res.get("indexed")
+    if not ix:
+        return {"op": "ping"}
+    return {"op": "apply_indexed", "doc": res["case"]["doc"], "author": engine_oracles.SESSION_AUTHOR,
+            "edits": [{"index": e["index"], "target": e["target"], "new": e["new"], "comment": e.get("comment")} for e in ix["edits"]]}
+
+
+def compare(res, out):
+    ix = res.get("indexed")
+    if not ix:
+        return []
+    name = "apply_edits(indexed) vs Adeu.Doc.applyEditsIndexed"
+    if "err" in out:
+        return [("driver", out["err"])]
+    r = ix["res"]
+    if r["err"]:
+        return [(name, f"implementation raised {r['err']}")]
+    if (out["applied"], out["skipped"]) != (r["applied"], r["skipped"]):
+        return [(name, f"counts: model {(out['applied'], out['skipped'])} implementation {(r['applied'], r['skipped'])}")]
+    d = canon_session.diff_docs(out["doc"], canon_session.canon_out(r["out_doc"], res["case"]["doc"], engine_oracles.SESSION_AUTHOR))
+    return [(name, d)] if d else []
 
 
 def nontrivial(res):
@@ -53,7 +88,7 @@ def run(tier, seed, driver_ok):
     return doccheck.run_doc_check(
         "C01", tier, seed, driver_ok, n_quick=450, n_thorough=8000,
         profiles=[("default", PROFILES["default"], 1), ("rich", PROFILES["rich"], 2)],
-        work=work, oracle=oracle, nontrivial=nontrivial,
+        work=work, oracle=oracle, driver_line=driver_line, compare=compare, nontrivial=nontrivial,
         rule="seeded generated documents x batches of 1-4 found edits of every kind (replace, delete, extend, prefix, "
              "shared context, unchanged, multi-line, Markdown, heading line, literal punctuation; 35% with comment) plus "
              "not-found and empty-target edits; non-trivial = distinct document+batch with >= 1 applied edit",
